@@ -18,7 +18,8 @@ RULE = ("histories of caching runs of the real Balancer over one cache directory
         "pair over the run alphabet + random length-4/5 histories; each completed run is compared (rows and stats) "
         "with the same run with caching disabled; crash points: for real cache entries every on-disk state (absent, "
         "empty, truncated prefixes, complete, garbage) followed by a run, and real kills of a caching run in a "
-        "subprocess at the k-th write into the cache directory followed by a normal run; distinct non-trivial = "
+        "subprocess at the k-th write into the cache directory, and at the k-th statement executed inside the cache "
+        "manager's own code (sys.monitoring LINE events; independent of the file layout), followed by a normal run; distinct non-trivial = "
         "distinct (history | crash state) whose last run hit a cache file left by an earlier run or state")
 ASSUMPTIONS = ["the cache-free run of the same configuration is the reference (memoised per configuration)",
                "a kill is simulated with os._exit inside the write call (after writing half of that chunk and flushing)"]
@@ -74,22 +75,32 @@ def balancer(col):
 
 
 def install_hit_counter():
-    from synrbl.SynUtils.batching import CacheManager
-    if getattr(CacheManager, "_verif_wrapped", False):
+    """kept for the call sites; hits are derived in do_run (batches of the run minus pipeline invocations, the
+    latter counted at the public input validator) and do not depend on how the cache is implemented"""
+    return
+
+
+def _count_pipeline_calls(b):
+    if getattr(b, "_verif_counting", False):
         return
-    orig = CacheManager.load_cache
+    orig = b.input_validator.check
 
-    def load_cache(self, key):
-        HITS["n"] += 1
-        return orig(self, key)
+    def check(*a, **k):
+        PIPE["n"] += 1
+        return orig(*a, **k)
 
-    CacheManager.load_cache = load_cache
-    CacheManager._verif_wrapped = True
+    b.input_validator.check = check
+    b._verif_counting = True
+
+
+PIPE = {"n": 0}
 
 
 def do_run(run, cache_dir):
     """-> (rows view, stats, error)"""
     b = balancer(run["col"])
+    _count_pipeline_calls(b)
+    pipe_before = PIPE["n"]
     b.cache = cache_dir is not None
     b.cache_dir = cache_dir
     b.confidence_threshold = run["t"]
@@ -113,6 +124,11 @@ def do_run(run, cache_dir):
     except Exception as e:  # noqa
         return None, stats, "%s: %s" % (type(e).__name__, str(e)[:160])
     finally:
+        if cache_dir is not None:
+            n = len(run["inputs"])
+            bs = run["bs"] or n
+            batches = (n + bs - 1) // bs
+            HITS["n"] += max(0, batches - (PIPE["n"] - pipe_before))  # batches answered without the pipeline
         b.cache = False
         b.confidence_threshold = 0
         b.columns = base_cols
@@ -179,7 +195,7 @@ def crash_states(run_i, stride, res):
     d = tempfile.mkdtemp(prefix="verif_c12c_")
     try:
         do_run(run, d)
-        files = sorted(f for f in os.listdir(d))
+        files = sorted(os.path.relpath(os.path.join(dp, f), d) for dp, _, fs in os.walk(d) for f in fs)
         blobs = {f: open(os.path.join(d, f), "rb").read() for f in files}
         res.count("cache_entries_seen", len(files))
         for f in files:
@@ -247,6 +263,45 @@ print("WRITES", count[0])
 '''
 
 
+KILLER2 = r'''
+import os, sys, json, types, warnings
+warnings.filterwarnings("ignore")
+cache_dir, k, spec = sys.argv[1], int(sys.argv[2]), json.loads(sys.argv[3])
+import synrbl.SynUtils.batching as B
+mon = sys.monitoring
+TOOL = mon.DEBUGGER_ID
+mon.use_tool_id(TOOL, "verif-kill")
+codes = set()
+def collect(code):
+    codes.add(code)
+    for c in code.co_consts:
+        if isinstance(c, types.CodeType):
+            collect(c)
+cm = getattr(B, "CacheManager", None)
+if cm is not None:
+    for name, obj in vars(cm).items():
+        fn = obj.__func__ if isinstance(obj, (staticmethod, classmethod)) else obj
+        if isinstance(fn, types.FunctionType):
+            collect(fn.__code__)
+for name, obj in vars(B).items():
+    if isinstance(obj, types.FunctionType) and obj.__module__ == B.__name__:
+        collect(obj.__code__)
+count = [0]
+def on_line(code, line):
+    count[0] += 1
+    if count[0] == k:
+        os._exit(77)   # the process dies before this statement runs; unflushed buffers are lost
+mon.register_callback(TOOL, mon.events.LINE, on_line)
+for c in codes:
+    mon.set_local_events(TOOL, c, mon.events.LINE)
+from synrbl import Balancer
+b = Balancer(reaction_col=spec["col"], confidence_threshold=spec["t"], n_jobs=1, cache=True, cache_dir=cache_dir,
+             batch_size=spec["bs"])
+b.rebalance([{spec["col"]: r} for r in spec["inputs"]], output_dict=True, stats={})
+print("WRITES", count[0])
+'''
+
+
 def run_child(cmd, cwd, timeout=600):
     """run a child that may die by os._exit while joblib helper processes still hold its pipes:
     output goes to a file, the child gets its own session and the whole group is killed afterwards"""
@@ -269,13 +324,16 @@ def run_child(cmd, cwd, timeout=600):
         return rc, fo.read()
 
 
-def kill_run(run_i, ks, res):
+def kill_run(run_i, ks, res, mode="write"):
+    """mode 'write': the child dies inside the k-th write() on a file opened for writing below the cache directory
+    (half of that chunk flushed); mode 'line': the child dies at the k-th statement executed inside the cache
+    manager's own code (every statement boundary of the cache code is a crash point; works for any file layout)"""
     install_hit_counter()
     run = RUNS[run_i]
     tmp = tempfile.mkdtemp(prefix="verif_c12k_")
     script = os.path.join(tmp, "killer.py")
     with open(script, "w") as f:
-        f.write(KILLER)
+        f.write(KILLER if mode == "write" else KILLER2)
     spec = json.dumps({k: run[k] for k in ("inputs", "bs", "t", "col")})
     try:
         # how many writes does a complete run make?
@@ -285,9 +343,11 @@ def kill_run(run_i, ks, res):
         for line in out.splitlines():
             if line.startswith("WRITES"):
                 total = int(line.split()[1])
-        res.count("writes_of_a_complete_run", total)
+        res.count("%s_events_of_a_complete_run" % mode, total)
         if total == 0:
-            res.incon("kill harness saw no write into the cache directory (hook not reached)")
+            # 'write': the cache does not write through a plain open() in its module (another implementation);
+            # the statement-level kills and the on-disk state enumeration still apply
+            res.count("kill_hook_not_reached:" + mode)
             return
         if ks == "all":
             ks = list(range(1, total + 1))
@@ -300,18 +360,20 @@ def kill_run(run_i, ks, res):
             if rc != 77:
                 res.count("kill_not_reached")
                 continue
-            left = {f: os.path.getsize(os.path.join(d, f)) for f in sorted(os.listdir(d))}
+            left = {os.path.relpath(os.path.join(dp, f), d): os.path.getsize(os.path.join(dp, f))
+                    for dp, _, fs in os.walk(d) for f in fs} if os.path.isdir(d) else {}
             before = HITS["n"]
             got = do_run(run, d)
-            desc = {"run": run["name"], "killed_at_write": k, "of": total, "files_left": left}
+            desc = {"run": run["name"], "killed_at_%s" % mode: k, "of": total, "files_left": left, "mode": mode}
             judge(run, got, res, dict(case={"kill": desc}))
             res.count("real_kills")
-            res.case(["kill", run["name"], k])
+            res.count("real_kills:" + mode)
+            res.case(["kill", mode, run["name"], k])
             # and once more on the now repaired directory: must hit the cache and still be right
             got2 = do_run(run, d)
             judge(run, got2, res, dict(case={"kill": desc, "second_run_after_kill": True}))
             shutil.rmtree(d, ignore_errors=True)
-        res.sample({"kill_points": ks[:10], "writes_total": total, "run": run["name"]})
+        res.sample({"kill_points": ks[:10], "events_total": total, "mode": mode, "run": run["name"]})
     finally:
         shutil.rmtree(tmp, ignore_errors=True)
 
@@ -327,11 +389,14 @@ def plan(tier, seed):
     if q:
         shards += [{"crash": {"run": 0, "stride": 64}}, {"crash": {"run": 3, "stride": 97}},
                    {"crash": {"run": 19, "stride": 211}},
-                   {"kill": {"run": 0, "ks": 8}}, {"kill": {"run": 3, "ks": 6}}]
+                   {"kill": {"run": 0, "ks": 8}}, {"kill": {"run": 3, "ks": 6}},
+                   {"kill": {"run": 0, "ks": 30, "mode": "line"}}, {"kill": {"run": 3, "ks": 30, "mode": "line"}}]
     else:
         shards += [{"crash": {"run": i, "stride": 1 if i in (0, 3) else 7}} for i in (0, 1, 3, 5, 6, 9, 10, 19)]
         shards += [{"kill": {"run": 0, "ks": "all"}}, {"kill": {"run": 3, "ks": "all"}},
-                   {"kill": {"run": 6, "ks": 60}}, {"kill": {"run": 10, "ks": 60}}]
+                   {"kill": {"run": 6, "ks": 60}}, {"kill": {"run": 10, "ks": 60}},
+                   {"kill": {"run": 0, "ks": "all", "mode": "line"}}, {"kill": {"run": 3, "ks": "all", "mode": "line"}},
+                   {"kill": {"run": 6, "ks": 80, "mode": "line"}}]
     return shards
 
 
@@ -348,7 +413,7 @@ def work(shard, res, tier, seed):
             crash_states(byname[c["crash_state"]["run"]], 64, res)
         elif "kill" in c:
             byname = {r["name"]: i for i, r in enumerate(RUNS)}
-            kill_run(byname[c["kill"]["run"]], 6, res)
+            kill_run(byname[c["kill"]["run"]], 6, res, c["kill"].get("mode", "write"))
         return
     if "histories" in shard:
         for h in shard["histories"]:
@@ -357,12 +422,13 @@ def work(shard, res, tier, seed):
     if "crash" in shard:
         crash_states(shard["crash"]["run"], shard["crash"]["stride"], res)
     if "kill" in shard:
-        kill_run(shard["kill"]["run"], shard["kill"]["ks"], res)
+        kill_run(shard["kill"]["run"], shard["kill"]["ks"], res, shard["kill"].get("mode", "write"))
 
 
 def conclude_args(res, tier, seed):
     n = len(QUICK_RUNS) if tier == "quick" else len(RUNS)
-    return {"need": {"histories": 30, "histories_ending_in_cache_hit": 10, "crash_states": 20, "real_kills": 5},
+    return {"need": {"histories": 30, "histories_ending_in_cache_hit": 10, "crash_states": 20, "real_kills": 5,
+                     "real_kills:line": 3},
             "min_cases": 30,
             "extra": {"exhaustive_subspace": "all %d ordered pairs over the %d-run alphabet; truncation prefixes with the "
                       "stride recorded per entry (every byte in the thorough tier for the one- and two-entry runs)" % (n * n, n)}}
